@@ -87,6 +87,7 @@ func C14(ctx *core.Ctx, r *core.Report) {
 	c14GuardBacking(ctx, r)
 	c14WorklistGuard(ctx, r)
 	c14EveryBaseCompiled(ctx, r)
+	c14LexerPosInBounds(ctx, r)
 	c14AnyRejectedByDeviationCheck(ctx, r)
 	// an import of a submodule that is not merged is never resolved: its module stays nil
 	c01SubmoduleMergeComplete(ctx, r)
